@@ -964,12 +964,33 @@ def route_shared_file(ctx, n, root):
             ctx.fail('loading a config file changed the file', case, {})
 
 
+def _with_env(fn):
+    """run with environment variables named like the placeholders the generators leave UNDEFINED (and like every defined one, with another
+    value): the environment of the process is no source of values"""
+    import os
+    names = [n for n in UNDEF + DEF_NAMES + ['USER', 'HOME', 'LANG', 'TMPDIR', 'V', 'W'] if n and '=' not in n and '\x00' not in n]
+    old = {n: os.environ.get(n) for n in names}
+    try:
+        for n in names:
+            try:
+                os.environ[n] = 'FROM-ENV'
+            except (ValueError, UnicodeEncodeError):
+                pass
+        return fn()
+    finally:
+        for n, v in old.items():
+            if v is None:
+                os.environ.pop(n, None)
+            else:
+                os.environ[n] = v
+
+
 def run(ctx):
     quiet()
     root = ctx.tmpdir()
     route_shared_context(ctx, ctx.n(150, 1200), root)
     route_shared_file(ctx, ctx.n(60, 600), root)
-    route_direct(ctx, ctx.n(5000, 40000))
+    _with_env(lambda: route_direct(ctx, ctx.n(5000, 40000)))
     route_config(ctx, ctx.n(1500, 12000), root / 'cfg')
     route_chain(ctx, ctx.n(120, 1000), root)
     route_uses(ctx, ctx.n(100, 600), root)
